@@ -106,6 +106,22 @@ def make_draw(op, dim, r, core=False, mp=True, momentum=None, odim=None, unit_qu
             args[0] = ("vec", o)
             lab += "/near"
         else:
+            # "far" has to be far in every coordinate system: a pair 6 % apart in rho and phi can be 50 % apart in y
+            # (false alarm of the thorough tier, seed 2).  Euclidean distance of at least 3/4 of the larger length.
+            def dist_ok(o_):
+                if o_.dim != self_rv.dim:
+                    return True
+                d2 = sum((p_ - q_) ** 2 for p_, q_ in zip(o_.comps(), self_rv.comps()))
+                n2 = max(sum(c * c for c in o_.comps()), sum(c * c for c in self_rv.comps()))
+                return d2 >= mpf("0.5625") * n2
+            k_, a_ = args[0]
+            guard = 0
+            while k_ == "vec" and not dist_ok(a_) and guard < 20:
+                guard += 1
+                a_, _l = gen.vec(r, a_.dim, **kw)
+            if k_ == "vec" and not dist_ok(a_):
+                a_ = R.RV(*[-2 * c for c in self_rv.comps()])
+            args[0] = (k_, a_)
             lab += "/far"
     return Draw(op, dim, self_rv, momentum, args, lab, odim)
 
